@@ -443,3 +443,17 @@ Example ex_stream_fault :
                     [Item (lit "a"); Item (lit "b"); Raise]) (Some 1) (Some 5)
   = ([Start 200 [(lit "x-a", lit "b"); (lit "content-type", lit "text/plain")]; Body (lit "a") true; Body [] false], Returned).
 Proof. vm_compute. reflexivity. Qed.
+
+(* ---------- the file vanishes between stat and open ---------- *)
+
+Theorem vanished_file_prefix_legal_proof r :
+  status_ok r ->
+  asgi_legal false (asgi_vanished r) = true /\ wsgi_shape (wsgi_vanished r) = true.
+Proof.
+  intros Hs. split.
+  - pose proof (asgi_fault_prefix_legal_proof r None (Some 1) Hs) as H. unfold asgi_run in H. unfold asgi_vanished.
+    destruct (asgi_full r None) as [evs o]. cbn [fst] in *.
+    destruct (1 <? length evs) eqn:E; cbn [fst] in H; [exact H|].
+    apply Nat.ltb_ge in E. rewrite firstn_all2 by exact E. exact H.
+  - unfold wsgi_vanished. apply wsgi_shape_firstn. apply wsgi_full_shape.
+Qed.
